@@ -33,6 +33,22 @@ CHECKS = {
          "Generated-input search: objective and every active constraint compared coefficient-wise with the exact partial evaluation, all other fields unchanged, parameters recorded, missing parameter rejected.",
          "Trusts exact.rs.",
          "DESIGN.md §5 C10"),
+ "C11": ("proptest-driven generation of binary objectives in any representation; oracle = exact evaluation on all 2^n assignments plus uniqueness of the multilinear form; each refusal condition generated",
+         "Generated-input search with exhaustive enumeration of all 2^n binary assignments per case (n<=8 quick, <=12 thorough) in exact arithmetic; canonical keys, no stored zeros, refusals.",
+         "Trusts exact.rs.",
+         "DESIGN.md §5 C11"),
+ "C12": ("exhaustive sweep over lower in [-6,6] x every width (0..600 quick, 0..4097 thorough) with all bit patterns enumerated, plus proptest-driven wide/fractional ranges (complete-sequence criterion) and every error class; infinite/NaN classes executed in a child process under a time and memory limit",
+         "Exploration with an exhaustively enumerated sub-space; 'an error, not a hang' is decided by a watchdogged child process (20 s, 4 GB: more than 10^6 times the normal cost).",
+         "Existing variable ids far below u64::MAX.",
+         "DESIGN.md §5 C12"),
+ "C13": ("proptest-driven generation of small integer boxes x rational-coefficient inequalities x limits; oracle = brute force over every lattice point and every slack value in exact rational arithmetic",
+         "Generated-input search; per case the feasible sets before/after are compared on the complete lattice (<=343 points) and all slack values (affine-interval argument above 4096 values); outcome-specific checks for converted / relaxed / infeasible / rejected.",
+         "Tolerance 1e-6 as in the SDK's feasibility test, intended values separated by >=1e-3; converse directions only for (normalised) linear functions.",
+         "DESIGN.md §5 C13"),
+ "C15": ("proptest-driven generation of instances of both senses, evaluated sample sets and hand-built SampleSet messages in current and 1.6 encodings (through protobuf bytes); oracle = exact negation / brute-force arg-best",
+         "Generated-input search; the chosen sample is checked against a brute-force scan of the feasibility/objective table for both feasibility notions and both senses, failure iff no sample is feasible.",
+         "Pre-1.6 messages with only `feasible` are not generated (no documented reading).",
+         "DESIGN.md §5 C15"),
  "C14": ("model-based stateful testing: generated relax/restore/evaluate histories interpreted against a two-map model with invariants checked after every step",
          "Generated operation sequences (<=8 quick, <=20 thorough) with ids from active/removed/unknown; Ok/Err, unchanged-on-error, constraint collection, list membership, reasons, per-state values and feasibility invariance checked after every step.",
          "Trusts the model in props/c14.rs and the reference evaluator.",
